@@ -104,7 +104,8 @@ def configs(rep):
         if rep.quick:
             grid = [(d, w) for d in range(0, 6) for w in (0, 1, 2) if (w < 2 or d <= 4)]
         else:
-            grid = [(d, w) for d in range(0, 10) for w in (0, 1, 2) if (w < 2 or d <= 6)] + [(d, 1) for d in (10, 11, 12)]
+            # sized so that the whole thorough tier stays around 10 minutes on 16 cores (the largest graphs have ~150k states)
+            grid = [(d, 0) for d in range(0, 13)] + [(d, 1) for d in range(0, 9)] + [(d, 2) for d in range(0, 6)]
         for d, w in grid:
             out.append((cls, d, w, False))
         # domain reset as an extra action on a few configurations (re-start from any reachable state)
